@@ -208,6 +208,13 @@ def profile_collecterr(rng: random.Random) -> S.SimCfg:
         if every or rng.random() < 0.5:
             cfg.collect_errors[w] = list(chosen)
     cfg.maxfail = rng.choice([0, 0, 1, 2])
+    if rng.random() < 0.5:
+        # modules that skip themselves at import time: every worker reports the skip, the run goes on
+        sk = rng.sample(["t/opt.py|needs numpy", "t/win.py|windows only"], rng.randrange(1, 3))
+        for w in range(cfg.numnodes + 2):
+            cfg.collect_skips[w] = list(sk)
+        if rng.random() < 0.6:
+            cfg.collect_errors = {}
     return cfg
 
 
@@ -705,6 +712,7 @@ def cfg_to_json(cfg: S.SimCfg) -> dict[str, Any]:
     d["behav"] = {str(k): [dataclasses.asdict(b) for b in v] for k, v in cfg.behav.items()}
     d["node_ids"] = {str(k): v for k, v in cfg.node_ids.items()}
     d["collect_errors"] = {str(k): v for k, v in cfg.collect_errors.items()}
+    d["collect_skips"] = {str(k): v for k, v in cfg.collect_skips.items()}
     d["boot_crash"] = {str(k): v for k, v in cfg.boot_crash.items()}
     return d
 
@@ -714,6 +722,7 @@ def cfg_from_json(d: dict[str, Any]) -> S.SimCfg:
     d["behav"] = {int(k): [S.Behav(**b) for b in v] for k, v in d["behav"].items()}
     d["node_ids"] = {int(k): v for k, v in d["node_ids"].items()}
     d["collect_errors"] = {int(k): v for k, v in d["collect_errors"].items()}
+    d["collect_skips"] = {int(k): v for k, v in d.get("collect_skips", {}).items()}
     d["boot_crash"] = {int(k): v for k, v in d["boot_crash"].items()}
     return S.SimCfg(**d)
 
